@@ -11,6 +11,24 @@ A global deadline stops the hand-out of further blocks; the run then reports exh
 """
 import os, sys, time, json, mmap, struct, signal, pickle, traceback, ast, multiprocessing as mp
 
+try:
+    sys.set_int_max_str_digits(0)
+except AttributeError:
+    pass
+
+
+def crepr(x):
+    """repr() with big integers in hex (fast, literal_eval-able)"""
+    if isinstance(x, bool) or x is None:
+        return repr(x)
+    if isinstance(x, int):
+        return hex(x) if (x > 0xFFFFFFFF or x < -0xFFFFFFFF) else repr(x)
+    if isinstance(x, tuple):
+        return "(" + ", ".join(crepr(e) for e in x) + ("," if len(x) == 1 else "") + ")"
+    if isinstance(x, list):
+        return "[" + ", ".join(crepr(e) for e in x) + "]"
+    return repr(x)
+
 NWORK = int(os.environ.get("VERIF_WORKERS", "16"))
 MAX_FAILS = 12
 
@@ -37,7 +55,7 @@ class Rec:
     def fail(self, kind, msg, **kw):
         self.nfail += 1
         if len(self.fails) < MAX_FAILS:
-            d = {"space": self.space, "block": self.block, "case": repr(self.case), "kind": kind, "msg": str(msg)[:600]}
+            d = {"space": self.space, "block": self.block, "case": crepr(self.case), "kind": kind, "msg": str(msg)[:600]}
             d.update(kw)
             self.fails.append(d)
 
@@ -80,7 +98,7 @@ def _worker(wid, spaces, counter, nblocks_total, order, deadline, beacon_path, c
                 R.n += 1
                 k += 1
                 if slow:
-                    b = repr(case).encode()[:BEACON_SZ - 40]
+                    b = crepr(case).encode()[:BEACON_SZ - 40]
                     struct.pack_into("<qqqq", bm, off, si, bi, k, len(b))
                     bm[off + 32:off + 32 + len(b)] = b
                 elif k & 1023 == 0:
@@ -97,9 +115,9 @@ def _worker(wid, spaces, counter, nblocks_total, order, deadline, beacon_path, c
                 if first:
                     first = False
                     if len(R.samples) < 40:
-                        R.samples.append({"space": sp.name, "block": repr(blk)[:200], "case": repr(case)[:400]})
+                        R.samples.append({"space": sp.name, "block": crepr(blk)[:200], "case": crepr(case)[:400]})
             if case is not None and len(R.samples) < 40 and k > 1:
-                R.samples.append({"space": sp.name, "block": repr(blk)[:200], "case": repr(case)[:400]})
+                R.samples.append({"space": sp.name, "block": crepr(blk)[:200], "case": crepr(case)[:400]})
             ps = per_space.setdefault(sp.name, [0, 0])
             ps[0] += R.n - n0
             ps[1] += 1
